@@ -44,7 +44,7 @@ from vsim.backend import SimAsyncIOBackend, sim_sockets
 from vsim.harness import AlignedFeed, swarm_selector, sync_engine
 from vsim.loop import run_async
 from vsim.runner import Harness
-from vsim.sock import Delivery, SimNet, patched_clock
+from vsim.sock import Delivery, SimNet
 from vsim.world import Deadlock, HarnessError, StepCap, Violation, World
 
 PROPERTY = "C10"
@@ -113,26 +113,34 @@ class _Plan:
         self.codec = _Codec(world, mode, buffered)
         stream = self.codec.stream
         L = len(stream)
-        nchunks = 1 + world.choose("nchunks", min(8, L))
-        cuts = sorted({1 + world.choose("cut", L - 1) for _ in range(nchunks - 1)}) if L > 1 else []
-        bounds = [0, *cuts, L]
-        t = world.choose("t0", 5)
-        self.chunks: list[tuple[int, bytes, int]] = []
-        for a, b in zip(bounds, bounds[1:]):
-            defer = 0 if sync else (0, 0, 0, 1, 2)[world.choose("defer", 5)]
-            self.chunks.append((t, stream[a:b], defer))
-            t += world.choose("gap", 6)
-        self.fin_tick = t + world.choose("fin.gap", 4)
-        self.align_den = (0, 0, 4, 2)[world.choose("align_den", 4)]
-        ncancel = world.choose("ncancel", 7)
-        self.cancels: list[tuple[str, int]] = [(kinds[world.choose("kind", len(kinds))], world.choose("d", 7)) for _ in range(ncancel)]
+        # a third of the runs are fault-free baselines (profile 0): whole stream at once, no cancellation, no perturbation
+        self.baseline = world.choose("profile", 3) == 0
+        if self.baseline:
+            self.chunks: list[tuple[int, bytes, int]] = [(0, stream, 0)]
+            self.fin_tick = 0
+            self.align_den = 0
+            self.cancels: list[tuple[str, int]] = []
+        else:
+            nchunks = 1 + world.choose("nchunks", min(8, L))
+            cuts = sorted({1 + world.choose("cut", L - 1) for _ in range(nchunks - 1)}) if L > 1 else []
+            bounds = [0, *cuts, L]
+            t = world.choose("t0", 5)
+            self.chunks = []
+            for a, b in zip(bounds, bounds[1:]):
+                defer = 0 if sync else (0, 0, 0, 1, 2)[world.choose("defer", 5)]
+                self.chunks.append((t, stream[a:b], defer))
+                t += world.choose("gap", 6)
+            self.fin_tick = t + world.choose("fin.gap", 4)
+            self.align_den = (0, 0, 4, 2)[world.choose("align_den", 4)]
+            ncancel = world.choose("ncancel", 7)
+            self.cancels = [(kinds[world.choose("kind", len(kinds))], world.choose("d", 7)) for _ in range(ncancel)]
         self.pause_den = (0, 0, 3)[world.choose("pause_den", 3)]
         self.sizes = [(4096, 1, 2, 3, 5, 8, 64)[world.choose("size", 7)] for _ in range(3)]
         if len(self.chunks) > 1:
             world.fault("frag")
         if any(c[0] for c in self.chunks):
             world.fault("delay")
-        world.notes.update(layer=layer, stream_len=L, chunks=[(c[0], len(c[1]), c[2]) for c in self.chunks], fin_tick=self.fin_tick, cancels=self.cancels, align_den=self.align_den, sizes=self.sizes)
+        world.notes.update(layer=layer, baseline=self.baseline, stream_len=L, chunks=[(c[0], len(c[1]), c[2]) for c in self.chunks], fin_tick=self.fin_tick, cancels=self.cancels, align_den=self.align_den, sizes=self.sizes)
 
     def start_feed(self, feed: AlignedFeed, t0: float) -> None:
         for tick, data, defer in self.chunks:
@@ -412,7 +420,8 @@ def _h_async(world: World, name: str, make_layer: Callable[[], Any], *, into: bo
     async def amain() -> None:
         loop = asyncio.get_running_loop()
         loop.sim_selector.align = feed.on_wait  # type: ignore[attr-defined]
-        swarm_selector(world, loop.sim_selector)  # type: ignore[attr-defined]
+        if not plan.baseline:
+            swarm_selector(world, loop.sim_selector)  # type: ignore[attr-defined]
         await layer.setup(backend, lib, led)
         plan.start_feed(feed, world.now)
         spawned = 0
@@ -434,8 +443,7 @@ def _run(world: World, box: dict[str, Any], amain: Callable[[], Any]) -> None:
     """box: {"plan", "led", "feed"} (led/feed may be created during the run)"""
     layer = box["plan"].layer
     try:
-        with patched_clock(world):
-            run_async(world, amain)
+        run_async(world, amain)  # (patches time.perf_counter itself: iterator budgets read the world clock)
     except Deadlock as exc:
         led, feed = box.get("led"), box.get("feed")
         if led is not None and led.violation is None and feed.idle():
@@ -513,7 +521,8 @@ def _h_server(world: World, name: str, mode: str, buffered: bool) -> None:
             feed = box["feed"] = AlignedFeed(world, peer, align_den=plan.align_den)
             led = box["led"] = handler.led = _Ledger(world, plan, feed)
             loop.sim_selector.align = feed.on_wait  # type: ignore[attr-defined]
-            swarm_selector(world, loop.sim_selector)  # type: ignore[attr-defined]
+            if not plan.baseline:
+                swarm_selector(world, loop.sim_selector)  # type: ignore[attr-defined]
             up = asyncio.Event()
             serve = loop.create_task(server.serve_forever(is_up_event=up), name="c10-serve")
             await up.wait()
